@@ -80,6 +80,9 @@ def run(ctx):
         with open(script, "w") as f:
             for h in hists:
                 for line in h:
+                    if line.get("ev") == "op":
+                        # a third of the requests carry a further query parameter that any client may send
+                        line = dict(line, q=rng.choice(["type=replicate", "type=replicate", "fsync=true"]) if rng.random() < 0.35 else "")
                     f.write(json.dumps(line) + "\n")
     binp = ctx.build("c34")
     # viper (the signing keys) is process-global: one driver process per key configuration
